@@ -1,10 +1,168 @@
 import Vegeta.Go.Proto
+import Vegeta.Model.HTTPTargets
+import Vegeta.Model.JSONTargets
 /-! Driver operations of property C14 (ops are named `c14.<name>`). -/
 namespace Vegeta.Driver.C14
 open Vegeta.Go Vegeta.Go.Proto
+open Vegeta.Model
 
-def handle (_op : String) (args : List String) : Option String :=
-  match _op with
+/-! canonical printing -/
+
+def ltBytes : Bytes → Bytes → Bool
+  | [], [] => false
+  | [], _ :: _ => true
+  | _ :: _, [] => false
+  | a :: as, b :: bs => if a < b then true else if b < a then false else ltBytes as bs
+
+def insertSorted {α} (x : Bytes × α) : List (Bytes × α) → List (Bytes × α)
+  | [] => [x]
+  | y :: ys => if ltBytes x.1 y.1 then x :: y :: ys else y :: insertSorted x ys
+
+def sortByKey {α} (m : List (Bytes × α)) : List (Bytes × α) := m.foldr insertSorted []
+
+def showHeader (m : List (Bytes × List Bytes)) : String :=
+  toString m.length ++ (sortByKey m).foldl (fun s (k, vs) => s ++ " " ++ hexEncode k ++ " " ++ showBytesList vs) ""
+
+def showView (v : HTTPTargets.TargetView) : String :=
+  hexEncode v.method ++ " " ++ hexEncode v.url ++ " " ++ hexEncode v.body ++ " " ++ showHeader v.header
+
+def showRec (v : JSONTargets.JRec) : String :=
+  hexEncode v.method ++ " " ++ hexEncode v.url ++ " " ++ hexEncode v.body ++ " " ++ showHeader v.header
+
+/-! parsing -/
+
+def member (xs : List Bytes) (x : Bytes) : Bool := xs.any (· == x)
+
+def lookupTable {α} (tbl : List (Bytes × α)) (k : Bytes) : Option α :=
+  match tbl with
+  | [] => none
+  | (k', v) :: r => if k' == k then some v else lookupTable r k
+
+/-- default header with capacities: `key cap n v1 … vn`; builds heap arrays 0,1,… -/
+def pDefaultsHeap : P (HTTPTargets.HMap × HTTPTargets.Heap) := do
+  let ds ← listOf (do let k ← bytes; let c ← nat; let vs ← listOf bytes; pure (k, c, vs))
+  let step := fun (acc : HTTPTargets.HMap × HTTPTargets.Heap) (d : Bytes × Nat × List Bytes) =>
+    let (k, c, vs) := d
+    let cap := if c < vs.length then vs.length else c
+    let cells := vs ++ List.replicate (cap - vs.length) []
+    (acc.1 ++ [(k, ({ arr := acc.2.length, len := vs.length, cap := cap } : HTTPTargets.Slice))], acc.2 ++ [cells])
+  pure (ds.foldl step ([], []))
+
+structure HTTPCase where
+  cfg : HTTPTargets.Cfg
+  heap : HTTPTargets.Heap
+  src : Bytes
+
+def pHTTPCase : P HTTPCase := do
+  let body ← bytes
+  let (hdr, heap) ← pDefaultsHeap
+  let src ← bytes
+  let valid ← listOf bytes
+  let files ← listOf (do let p ← bytes; let c ← bytes; pure (p, c))
+  pure { cfg := { validURI := member valid, fs := lookupTable files, body := body, hdr := hdr }, heap := heap, src := src }
+
+def pVMap : P JSONTargets.VMap := listOf (do let k ← bytes; let vs ← listOf bytes; pure (k, vs))
+
+def pRec : P (Option JSONTargets.JRec) := do
+  let ok ← bool
+  if !ok then pure none else
+  let m ← bytes; let u ← bytes; let b ← bytes; let h ← pVMap
+  pure (some { method := m, url := u, body := b, header := h })
+
+structure JSONCase where
+  cfg : JSONTargets.Cfg
+  src : Bytes
+
+def pJSONCase : P JSONCase := do
+  let body ← bytes
+  let hdr ← pVMap
+  let src ← bytes
+  let tbl ← listOf (do let l ← bytes; let r ← pRec; pure (l, r))
+  pure { cfg := { dec := fun l => (lookupTable tbl l).getD none, body := body, hdr := hdr }, src := src }
+
+/-! the http targeter run with re-inspection of every earlier target after every call -/
+
+def showChanges (snaps : List HTTPTargets.TargetView) (now : List HTTPTargets.TargetView) : String :=
+  let idx := (List.range snaps.length).filter fun i => snaps[i]? != now[i]?
+  "chg " ++ toString idx.length ++
+    idx.foldl (fun s i => s ++ " " ++ toString i ++ " " ++ (match now[i]? with | some v => showView v | none => "?")) ""
+
+/-- returns the output parts in reverse order -/
+def httpRun (cfg : HTTPTargets.Cfg) (dflt0 : List (Bytes × List Bytes)) :
+    Nat → HTTPTargets.St → List HTTPTargets.Target → List HTTPTargets.TargetView → List String → List String
+  | 0, _, _, _, out => out
+  | n + 1, st, tgts, snaps, out =>
+    let (r, st1) := HTTPTargets.call cfg st
+    let now := tgts.map (HTTPTargets.viewTarget st1.heap)
+    let chg := showChanges snaps now
+    let d := if HTTPTargets.viewMap st1.heap cfg.hdr == dflt0 then "d 0" else "d 1"
+    match r with
+    | .ok t =>
+      let v := HTTPTargets.viewTarget st1.heap t
+      httpRun cfg dflt0 n st1 (tgts ++ [t]) (now ++ [v]) (("ok " ++ showView v ++ " " ++ chg ++ " " ++ d) :: out)
+    | .error e => httpRun cfg dflt0 n st1 tgts now (("err " ++ toString e ++ " " ++ chg ++ " " ++ d) :: out)
+    | .panic => httpRun cfg dflt0 n st1 tgts now ("panic" :: out)
+
+def jsonRun (cfg : JSONTargets.Cfg) : Nat → Bytes → List String → List String
+  | 0, _, out => out
+  | n + 1, src, out =>
+    let (r, src1) := JSONTargets.call cfg src
+    let s := match r with
+      | .ok t => "ok " ++ showRec t
+      | .error e => "err " ++ toString e
+      | .panic => "panic"
+    jsonRun cfg n src1 (s :: out)
+
+def joinBar (xs : List String) : String := " | ".intercalate xs
+
+def pETarget : P JSONTargets.ETarget := do
+  let m ← bytes; let u ← bytes; let b ← bytes
+  let h ← listOf (do
+    let k ← bytes
+    let isNil ← bool
+    if isNil then pure (k, (none : Option (List Bytes))) else
+    let vs ← listOf bytes
+    pure (k, some vs))
+  pure { method := m, url := u, body := b, header := h }
+
+def handle (op : String) (args : List String) : Option String :=
+  match op with
+  | "c14.lines" => do
+    let (src, _) ← (bytes).run args
+    pure ("ok " ++ showBytesList (HTTPTargets.srcLines src))
+  | "c14.method" => do
+    let (l, _) ← (bytes).run args
+    pure (if HTTPTargets.startsWithHTTPMethod l then "ok 1" else "ok 0")
+  | "c14.http" => do
+    let ((c, n), _) ← (do let c ← pHTTPCase; let n ← nat; pure (c, n)).run args
+    let st : HTTPTargets.St := { ps := HTTPTargets.PS.init c.src, heap := c.heap }
+    let d0 := HTTPTargets.viewMap c.heap c.cfg.hdr
+    pure (joinBar (httpRun c.cfg d0 n st [] [] []).reverse)
+  | "c14.http.readall" => do
+    let (c, _) ← (pHTTPCase).run args
+    let st : HTTPTargets.St := { ps := HTTPTargets.PS.init c.src, heap := c.heap }
+    match HTTPTargets.readAll c.cfg st with
+    | (.ok ts, st1) =>
+      pure ("ok " ++ toString ts.length ++ ts.foldl (fun s t => s ++ " ; " ++ showView (HTTPTargets.viewTarget st1.heap t)) "")
+    | (.error e, _) => pure ("err " ++ toString e)
+    | (.panic, _) => pure "panic"
+  | "c14.json" => do
+    let ((c, n), _) ← (do let c ← pJSONCase; let n ← nat; pure (c, n)).run args
+    pure (joinBar (jsonRun c.cfg n c.src []).reverse)
+  | "c14.json.readall" => do
+    let (c, _) ← (pJSONCase).run args
+    match HTTPTargets.readAllLoop (JSONTargets.call c.cfg) (c.src.length + 2) c.src [] with
+    | (.ok ts, _) => pure ("ok " ++ toString ts.length ++ ts.foldl (fun s t => s ++ " ; " ++ showRec t) "")
+    | (.error e, _) => pure ("err " ++ toString e)
+    | (.panic, _) => pure "panic"
+  | "c14.jsonenc" => do
+    let (t, _) ← (pETarget).run args
+    pure ("ok " ++ hexEncode (JSONTargets.encodeTarget t))
+  | "c14.jsonimg" => do
+    let (l, _) ← (bytes).run args
+    match JSONTargets.decodeImage l with
+    | some r => pure ("ok " ++ showRec r)
+    | none => pure "unmodelled"
   | _ => none
 
 end Vegeta.Driver.C14
